@@ -86,6 +86,7 @@ type watcher struct {
 	key     string
 	ch      chan leader.Entry
 	stopped bool
+	handed  bool    // the Watch call that created it has returned it to the library
 	queue   []*Item // pending deliveries, FIFO
 }
 
